@@ -155,3 +155,51 @@ func C01LatchStep() {
 		zz.Assert(rr == nil && rerr == err, "RawRecord returns the failed Read's error")
 	}
 }
+
+// C01LatchHist: K calls (Read / RawRecord in any interleaving) from the initial state against
+// a reference automaton: cross-checks the inductive invariant of C01LatchStep on reachable
+// states and covers histories with calls after a terminal result.
+func C01LatchHist() {
+	K := zz.Param("K", 4)
+	g := &zzIngester{}
+	tr := &transform{ingester: g}
+	// reference state
+	var refErr error         // last Read's error (nil if none yet or success)
+	var refRaw *zzRaw        // last successful Read's raw record
+	terminal := false        // refErr is terminal
+	for i := 0; i < K; i++ {
+		if zz.NondetBool("callRawRecord") {
+			rr, err := tr.RawRecord()
+			switch {
+			case refErr != nil:
+				zz.Assert(rr == nil && err == refErr, "RawRecord after a failed Read returns that Read's error")
+			case refRaw != nil:
+				zz.Assert(err == nil && rr == schemahandler.RawRecord(refRaw), "RawRecord after a successful Read returns that record")
+			default:
+				zz.Assert(rr == nil && err != nil, "RawRecord before any Read is an error")
+			}
+			continue
+		}
+		before := g.calls
+		b, err := tr.Read()
+		zz.Assert((b == nil) == (err != nil), "bytes nil iff err non-nil")
+		if terminal {
+			zz.Cover("after-terminal")
+			zz.Assert(g.calls == before && err == refErr, "terminal result is returned again without touching the ingester")
+			continue
+		}
+		zz.Assert(g.calls == before+1, "exactly one ingester read")
+		refErr = err
+		if err == nil {
+			refRaw = g.raws[g.calls-1]
+		} else {
+			refRaw = nil
+			terminal = !errs.IsErrTransformFailed(err)
+			if terminal {
+				zz.Cover("became-terminal")
+				zz.Assert(err == io.EOF || err == zzFatalErr, "terminal errors are EOF or the ingester's fatal error, unchanged")
+			}
+		}
+	}
+	zz.Cover("history")
+}
